@@ -47,12 +47,15 @@ prop('C01', 'c01', '4 (C01)')
 prop('C02', 'c02', '4 (C02)')
 prop('C03', 'c03', '4 (C03)')
 prop('C04', 'c04', '4 (C04)')
+prop('C05', 'c05', '4 (C05)')
+prop('C06', 'c06', '5 (C06)')
 prop('C07', 'c07', '5 (C07)')
 prop('C08', 'c08', '5 (C08)')
 prop('C09', 'c09', '5 (C09)')
 prop('C10', 'c10', '5 (C10)')
 prop('C11', 'c11', '6 (C11)')
 prop('C13', 'c13', '6 (C13)')
+prop('C20', 'c20', '5 (C20)')
 
 
 def sh(cmd, cwd=None, timeout=None, env=None):
